@@ -6,6 +6,7 @@ pub mod c03;
 pub mod c04;
 pub mod c05;
 pub mod c06;
+pub mod c07;
 pub mod c08;
 pub mod c09;
 pub mod c10;
@@ -24,6 +25,7 @@ pub fn run(cfg: &Cfg) -> Option<Report> {
         "C04" => c04::run(cfg),
         "C05" => c05::run(cfg),
         "C06" => c06::run(cfg),
+        "C07" => c07::run(cfg),
         "C08" => c08::run(cfg),
         "C09" => c09::run(cfg),
         "C10" => c10::run(cfg),
@@ -44,6 +46,7 @@ pub fn replay(cfg: &Cfg, case: &Value) -> Option<Report> {
         "C04" => c04::replay(cfg, case),
         "C05" => c05::replay(cfg, case),
         "C06" => c06::replay(cfg, case),
+        "C07" => c07::replay(cfg, case),
         "C08" => c08::replay(cfg, case),
         "C09" => c09::replay(cfg, case),
         "C10" => c10::replay(cfg, case),
